@@ -85,6 +85,20 @@ def guards_dominating(fn, b):
             for edges in (g.ok, g.fail):
                 if edges and cfg.must_pass(fn, edges, {b})[0]:
                     out |= {(y[1], y[2]) for y in vf.origins(fn, t["a"][0]) if y[0] == "field"}
+    # match / if-let on a field: a discriminant switch whose edge dominates b
+    for sb, bb in enumerate(fn.bbs):
+        t = bb["t"]
+        if t["k"] != "sw":
+            continue
+        for st in bb["s"]:
+            if st["k"] == "a" and st["r"]["k"] == "disc" and not st["d"][1] and vf.op_place(t["o"]) and vf.op_place(t["o"])[0] == st["d"][0]:
+                q = st["r"]["p"]
+                flds = {(e.get("a"), e.get("n")) for e in q[1] if isinstance(e, dict) and e.get("n")}
+                if not flds:
+                    flds = {(y[1], y[2]) for y in vf.producers(fn, {"c": [q[0], []]}) if y[0] == "field"}
+                for s_ in fn.succ(sb):
+                    if flds and cfg.must_pass(fn, {(sb, s_)}, {b})[0]:
+                        out |= flds
     return out
 
 
